@@ -1010,7 +1010,8 @@ fn main() {
                         let only = replay_in.as_deref().map(|b| (replay_ty.as_str(), b, replay_var));
                         const FMT: u128 = fmt_of(IDX);
                         const NOSEP: u128 = nosep_of(IDX);
-                        let d = desc_of::<FMT>(IDX);
+                        // what the enabled cargo features let the builder express (fields without a setter keep their defaults)
+                        let d = vharness::fmttab::effective(&desc_of::<FMT>(IDX));
                         if SET != SET_INVALID && !lexical_core::format_is_valid::<FMT>() {
                             rep.inconclusive(format!("sampled format #{IDX} {} is not valid for lexical: {:?}", d.name(), lexical_core::format_error::<FMT>()));
                         } else if SET == SET_INVALID {
